@@ -136,11 +136,10 @@ impl CallArgs {
             match is_splat(a) {
                 Some([one]) => match one.do_evaluate(scope.clone(), true)? {
                     css::Value::ArgList(args) => {
-                        if let Some(v) = args
-                            .named
-                            .get(&name)
-                            .or_else(|| args.positional.get(num - i))
-                        {
+                        if let Some(v) = args.named.get(&name).or_else(|| {
+                            num.checked_sub(i)
+                                .and_then(|n| args.positional.get(n))
+                        }) {
                             return Ok(v.clone());
                         }
                         i += if args.named.is_empty() {
@@ -156,7 +155,9 @@ impl CallArgs {
                         i += num + 1;
                     }
                     css::Value::List(items, ..) => {
-                        if let Some(v) = items.get(num - i) {
+                        if let Some(v) =
+                            num.checked_sub(i).and_then(|n| items.get(n))
+                        {
                             return Ok(v.clone());
                         }
                         i += items.len();
@@ -170,7 +171,9 @@ impl CallArgs {
                     }
                 },
                 Some(splat) => {
-                    if let Some(v) = splat.get(num - i) {
+                    if let Some(v) =
+                        num.checked_sub(i).and_then(|n| splat.get(n))
+                    {
                         return v.do_evaluate(scope, true);
                     }
                     i += splat.len();
